@@ -143,6 +143,15 @@ func configure(g *gen) {
 			{Callee: "strings.NewReplacer(rawVar...).Replace", Value: "(replacer rawVar %1)", T: tStr},
 			{Callee: "strings.NewReplacer(varRegex...).Replace", Value: "(replacer varRegex %1)", T: tStr},
 		}})
+	// route.go: the constructors and the naming API.  The router's name index is an association list (first binding
+	// = the live one)
+	add(FnSpec{Func: "NewRoute", Lean: "NewRoute", UseStructs: []string{"Route"}, Types: map[string]T{"rux.HandlerFunc": {"opaque", "Option Nat"}}})
+	add(FnSpec{Func: "NewNamedRoute", Lean: "NewNamedRoute", UseStructs: []string{"Route"}, Types: map[string]T{"rux.HandlerFunc": {"opaque", "Option Nat"}}})
+	add(FnSpec{Recv: "Route", Func: "NamedTo", Lean: "Route.NamedTo", UseStructs: []string{"Route"}, Mutates: true,
+		Extra: []string{"(idx : List (Bytes × Route))"}, RetExtra: []string{"idx"}, RetExtraT: []string{"List (Bytes × Route)"},
+		Prologue: []string{"let mut idx : List (Bytes × Route) := idx"},
+		Types: map[string]T{"*rux.Router": {"opaque", "Unit"}},
+		Exts: []Ext{{Callee: "router.namedRoutes[]=", Stmts: []string{"idx := (%1, %2) :: idx"}}}})
 	// parse_match.go: findAllowedMethods — the other methods under which the path matches.  The Go map used as a set
 	// is the list of its keys; the order in which `range` visits them is the parameter `ord`
 	add(FnSpec{Recv: "Router", Func: "findAllowedMethods", Lean: "Router.findAllowedMethods",
